@@ -39,6 +39,10 @@ class Obligation:
         self.unsupported = None     # reason, when the clause could not be evaluated on this path (verdict: unknown)
 
 
+# injections of unboxed values into the opaque sort (a dict / list of objects that also holds ints or strings)
+BOX_INT = z3.Function("box_int", z3.IntSort(), ObjSort)
+BOX_STR = z3.Function("box_str", StrSort, ObjSort)
+
 class Frame:
     def __init__(self, mod: ModuleInfo, locals_=None, parent=None, cls=None, fname="?", self_val=None):
         self.mod = mod
@@ -558,7 +562,13 @@ class Exec:
         elif isinstance(t, (ast.Tuple, ast.List)):
             items = self.iter_concrete(val)
             if items is None:
-                raise Unsupported("unpacking of symbolic sequence")
+                seq = self.as_symbolic_seq(val)
+                if seq is None or any(isinstance(e, ast.Starred) for e in t.elts):
+                    raise Unsupported("unpacking of symbolic sequence")
+                # a sequence of unknown length unpacks into n targets iff it has exactly n elements, else ValueError
+                if self.decide(z3.Length(seq.t) != len(t.elts)):
+                    self.raise_builtin("ValueError", "not enough / too many values to unpack")
+                items = [self.seq_at(seq, z3.IntVal(i)) for i in range(len(t.elts))]
             if any(isinstance(e, ast.Starred) for e in t.elts):
                 raise Unsupported("starred unpacking")
             if len(items) != len(t.elts):
@@ -1398,6 +1408,12 @@ class Exec:
                 c = z3.Const(f"box.{len(self.boxes)}", ObjSort)
                 self.boxes[key] = (c, val)
             return self.boxes[key][0]
+        if isinstance(val, bool):
+            raise Unsupported(f"boxing of {val!r}")
+        if isinstance(val, (SInt, int)):
+            return BOX_INT(self.to_int_term(val))
+        if isinstance(val, (SStr, str)) and not isinstance(val, SMarkup):
+            return BOX_STR(self.to_str_term(val))
         raise Unsupported(f"boxing of {val!r}")
 
     def unbox(self, t):
@@ -1880,7 +1896,8 @@ class Exec:
         if isinstance(node, ast.Lambda):
             return self.call_function(fref, args, kwargs, self_val)
         # generator functions can only be consumed by modelled constructs
-        if _is_generator(node):
+        gen_target = _is_generator(node) and self.depth <= 0 and target == self.contract.target
+        if _is_generator(node) and not gen_target:
             return Tagged("genfunc", fref, args, kwargs, self_val)
         self.depth += 1
         if self.depth > MAX_INLINE_DEPTH:
@@ -1888,6 +1905,11 @@ class Exec:
         try:
             fr = Frame(fref.mod, parent=fref.closure, cls=fref.cls, fname=(target.split(":")[1] if target else fref.qual), self_val=self_val)
             fr.fnode = node
+            if gen_target:
+                # a generator function verified as the target: run to exhaustion by an arbitrary consumer that takes every item;
+                # each yield is an event of the ghost trace (early close by the consumer: GeneratorExit at a yield is not modelled)
+                fr.yield_handler = lambda v: self.trace_event("yield", v)
+                self.used_intrinsics.add("generator target: the consumer takes every item (a consumer that stops early closes the generator at a yield; `with` blocks around the yield then exit - not modelled)")
             self.bind_params(fr, node.args, args, kwargs, fref)
             try:
                 self.exec_block(node.body, fr)
